@@ -31,7 +31,7 @@ ASSUMPTIONS = [
     "a NotImplementedError from get_reasonable_normalizer means 'no recommended normaliser exists for this combination' and is not counted as an inconsistency",
 ]
 NLDFS = [None, "VJ", "VI", "VIJ", "VK", "VIJ2", "VI0", "VJ2", "VIx"]
-SDMXS = [None, "SDMX", "SDMX1", "SDMXG", "SDMXG1", "SDMXFull", "SADM"]
+SDMXS = [None, "SDMX", "SDMX1", "SDMXG", "SDMXG1", "SDMXFull", "SADM", "SDMXG1-all"]
 NLOFS = [None, "FL0", "FL1", "FLd"]
 
 
